@@ -84,7 +84,11 @@ func genC12(t *rapid.T) c12Case {
 			// fresh processes under different runtime settings a deployment may impose
 			choices = append(choices, "cli-r1cs:1", "cli-r1cs:2", "cli-r1cs:3", "cli-r1cs:16", "cli-r1cs:4:GOMEMLIMIT=4GiB", "cli-r1cs:8:GOGC=25", "cli-r1cs:2:GOGC=off:GOMEMLIMIT=8GiB")
 		}
-		c.Paths = append(c.Paths, pick(t, "path", choices...))
+		pth := pick(t, "path", choices...)
+		if pth == "relatives" && c.Depth*c.Batch > 160 {
+			pth = "build-again" // the other mode at the same LARGE dimensions costs a minute; key slips are not size-dependent
+		}
+		c.Paths = append(c.Paths, pth)
 	}
 	return c
 }
